@@ -273,7 +273,7 @@ class Exec:
                 c.ghost_on_return(st, self.mkctx(st))
             ctx = self.mkctx(st)
             ctx.result = self.coerce(val, c.result_kind, st) if c.result_kind != 'none' else None
-            hints = c.post_hints(ctx) if c.post_hints else []
+            hints = self.prove_lemmas(st, c.post_hints(ctx), ctx, 'post') if c.post_hints else []
             st.trace.append('return')
             for label, fn in c._ensures:
                 goal = fn(ctx)
@@ -643,6 +643,12 @@ class Exec:
                 op = type(n.op).__name__
                 if op in ('BitAnd', 'BitOr'):
                     fields.add('$elems')
+                    if isinstance(n.target, ast.Attribute) and \
+                            L.FIELD_KINDS.get(ex.fieldname(n.target.attr)) == 'set':
+                        # in-place set operator: the attribute is re-bound to the same object
+                        self.visit(n.target.value)
+                        self.visit(n.value)
+                        return
                 if op == 'Add':
                     tk = None
                     if isinstance(n.target, ast.Name):
@@ -766,8 +772,8 @@ class Exec:
         ctx = self.mkctx(st, **ctxkw)
         hints = []
         if kind == 'inv-preserve' and spec.hints is not None:
-            hints = list(spec.hints(head_ctx, ctx))
-            hints += head_ctx.defs
+            hints = self.prove_lemmas(st, list(spec.hints(head_ctx, ctx)) + list(head_ctx.defs), ctx,
+                                      'loop%d' % k, lineno)
         for label, fn in spec.inv:
             goal = fn(ctx)
             self.oblige(st, '%s/loop%d' % (label, k), goal, kind, ctx, extra=hints,
@@ -777,6 +783,19 @@ class Exec:
                 self.oblige(st, 'wf:%s/loop%d' % (lab, k), fm, kind, ctx, extra=hints, lineno=lineno)
             for lab, fm in self.outer_iter_stable(st, fields):
                 self.oblige(st, '%s/loop%d' % (lab, k), fm, kind, ctx, extra=hints, lineno=lineno)
+
+    def prove_lemmas(self, st, hints, ctx, where, lineno=None):
+        """Lemma items among the hints become obligations of their own (proved with the hints that
+        precede them) and are then usable as hypotheses"""
+        out = []
+        for h in hints:
+            if isinstance(h, L.Lemma):
+                self.oblige(st, 'lemma:%s/%s' % (h.name, where), h.formula, 'lemma', ctx,
+                            extra=list(out), lineno=lineno)
+                out.append(h.formula)
+            else:
+                out.append(h)
+        return out
 
     def assume_inv(self, st, spec, ctxkw, fields):
         ctx = self.mkctx(st, **ctxkw)
